@@ -186,7 +186,13 @@ func runCheck(prop, tier string, only []string, writeEvidence bool) int {
 				continue
 			}
 			params := effectiveParams(h, tier)
-			res := explore(ld, fn, h, params)
+			var hk []knownFinding
+			for _, k := range known {
+				if k.Property == prop {
+					hk = append(hk, k)
+				}
+			}
+			res := explore(ld, fn, h, params, hk)
 			fmt.Println(res.summary())
 			he := harnessEvidence{Name: h.Name, Pkg: g.Pkg, Mode: h.Mode, Params: params, Paths: res.Paths, Completed: res.Completed, Pruned: res.Pruned,
 				Aborts: res.Aborts, Panics: res.Panics, Obligations: res.Obligations, Discharged: res.Discharged, Inconclusive: res.Inconclusive,
@@ -240,9 +246,13 @@ func runCheck(prop, tier string, only []string, writeEvidence bool) int {
 			solverTime += res.SolverTime
 
 			// confirm violations natively, then classify
+			nNew := 0
 			for i, v := range res.Violations {
-				if i >= 4 {
-					break
+				if v.KnownIdx == 0 {
+					nNew++
+					if nNew > 4 {
+						continue
+					}
 				}
 				nReplay++
 				rf := &replayFile{Property: prop, Harness: h.Name, Pkg: g.Pkg, Files: g.Files, Params: params, Mode: h.Replay,
@@ -353,7 +363,7 @@ func runDev(files []string, pkg, prefix, mode string, maxPaths, fuel, obligMs in
 	exit := 0
 	for _, name := range names {
 		hc := harnessCfg{Name: name, Mode: mode, MaxPaths: maxPaths, Fuel: fuel, ObligMs: obligMs, PanicsOK: panicsOK, WallS: wall}
-		res := explore(ld, ld.pkg.Func(name), hc, params)
+		res := explore(ld, ld.pkg.Func(name), hc, params, loadKnown())
 		fmt.Println(res.summary())
 		var ls []string
 		for l := range res.Reached {
